@@ -19,7 +19,6 @@ CRATES = {
     "consensus": {},
     "txstatus": {},
     "services": {},
-    "aggregator": {},
 }
 
 
@@ -167,6 +166,8 @@ PROPS["C29"] = {
     ],
 }
 
+_C08_CUTS = ["BlockHeaderV1::recalculate_metadata -> no-op (sha256 of the header; the id is not read)",
+             "alloc::fmt::format -> empty string", "Backtrace::capture -> disabled", "RandomState::new -> fixed keys (the Changes map is only created and moved)"]
 PROPS["C08"] = {
     "crate": "importer",
     "level": "model_checking",
@@ -180,10 +181,10 @@ PROPS["C08"] = {
                "(the enum is non_exhaustive and has none)",
     "assumptions": ["the database port answers arbitrarily but consistently within one request"],
     "harnesses": [
-        H("c08_admission", ["fuel_core_importer::importer::create_block_changes"], "all u32 heights, all port answers",
-          cuts=["BlockHeaderV1::recalculate_metadata -> no-op (sha256 of the header; the id is not read)",
-                "alloc::fmt::format -> empty string", "Backtrace::capture -> disabled", "RandomState::new -> fixed keys (the Changes map is only created and moved)"],
-          timeout={"quick": 1800, "thorough": 3600}),
+        H("c08_admission_poa", ["fuel_core_importer::importer::create_block_changes"], "PoA-sealed block: all u32 heights, all port answers",
+          cuts=_C08_CUTS, timeout={"quick": 1800, "thorough": 3600}),
+        H("c08_admission_genesis", ["fuel_core_importer::importer::create_block_changes"], "genesis block: all u32 heights, all port answers",
+          cuts=_C08_CUTS, timeout={"quick": 1800, "thorough": 3600}),
     ],
 }
 
@@ -295,6 +296,7 @@ PROPS["C11"] = {
                "take_while stops; cannot occur when all keys of a column are longer than the prefix, as in fuel-core's tables)",
     "assumptions": ["RocksDB seek_for_prev(k) positions at the greatest key <= k and prev() walks in descending key order (RocksDB documentation)"],
     "harnesses": [
+        H("c11_next_prefix_p2", ["fuel_core::state::rocks_db::next_prefix"], "prefix <= 2 bytes, key <= 4 bytes"),
         H("c11_next_prefix_p3", ["fuel_core::state::rocks_db::next_prefix"], "prefix <= 3 bytes, key <= 4 bytes"),
         H("c11_next_prefix_p4", ["fuel_core::state::rocks_db::next_prefix"], "prefix <= 4 bytes, key <= 4 bytes", tiers=("thorough",)),
     ],
